@@ -1112,6 +1112,10 @@ func (env *Env) selectField(v Val, name string, st *State, pos token.Pos) Val {
 		env.rangeAssume(st, r)
 		return r
 	}
+	if strings.HasPrefix(ssort, "Ext_") {
+		// a struct type of another module is an uninterpreted sort: its fields are functions of the value
+		c.decls.declFun(fieldSel(ssort, name), []string{ssort}, env.sortOf(ft))
+	}
 	r := Val{T: app(fieldSel(ssort, name), v.T), Ty: ft}
 	env.rangeAssume(st, r)
 	return r
